@@ -238,7 +238,7 @@ def run(tier, report):
             () if tier == "quick" else (("DataFormat_triples.cfg", "all triples of settings that can contradict each other"),
                                         ("DataFormat_allpairs.cfg", "all pairs of all settings"))):
         result = core.tlc("MCDataFormat", cfg, timeout=7000)
-        core.require_coverage(result, ["SetProperty", "Validate"], cfg)
+        core.require_coverage(result, ["SetProperty", "Validate", "ValidateAgain"], cfg)
         report.add_tlc("DataFormat %s: %s" % (cfg, label), result)
         vectors += result.by_tag("VEC")
     outcomes = core.parallel_map(_job, vectors, chunk=200)
